@@ -194,7 +194,28 @@ public:
     //! @brief  No default constructor. There is always an associated Graph.
     SepMatrix(void) = delete;
     //! @brief  Copy constructor.
-    SepMatrix(const SepMatrix &m) = default;
+    //!
+    //! @note  The SubConstraintInfos kept by the cola::CompoundConstraint superclass are owned
+    //!        (deleted) by it, and are regenerated from the SepPairs whenever they are needed
+    //!        (see markAllSubConstraintsAsInactive), so a copy starts without any.
+    SepMatrix(const SepMatrix &m)
+        : cola::CompoundConstraint(vpsc::UNSET, m.priority()),
+          m_extraBdryGap(m.m_extraBdryGap), m_graph(m.m_graph), m_sparseLookup(m.m_sparseLookup) {
+        _combineSubConstraints = true;
+    }
+    //! @brief  Copy assignment. As for copy construction, the SubConstraintInfos are not shared.
+    SepMatrix &operator=(const SepMatrix &m) {
+        if (this != &m) {
+            m_extraBdryGap = m.m_extraBdryGap;
+            m_graph = m.m_graph;
+            m_sparseLookup = m.m_sparseLookup;
+            // Our own SubConstraintInfos refer to the SepPairs we had before.
+            for (cola::SubConstraintInfo *info : _subConstraintInfo) delete info;
+            _subConstraintInfo.clear();
+            _currSubConstraintIndex = 0;
+        }
+        return *this;
+    }
     //! @brief  Destructor.
     ~SepMatrix(void) = default;
     //! @brief  Add a constraint.
